@@ -35,7 +35,7 @@ impl SprsMat {
         r@.len() == self.m,   // name=lc_utils.SprsMat.row_mul.one_entry_per_column props=C13,C08
         forall|j: int| 0 <= j < self.m ==> (#[trigger] r@[j])@ == sprs_col(self, fviews(v@), j),   // name=lc_utils.SprsMat.row_mul.entry_is_the_column_sum props=C13,C08
 //@body
-//@rw 1 /(?s)\(0\.\.self\.m\)\s*\.map\(\|j\| \{\s*let ij = (.*?)\.\.(.*?);\s*self\.col_ind\[ij\.clone\(\)\]\s*\.iter\(\)\s*\.zip\(&self\.val\[ij\]\)\s*\.map\(\|\(&idx, x\)\| (.*?)\)\s*\.sum::<F>\(\)\s*\}\)\s*\.collect::<Vec<_>>\(\)/ => { let mut out__: Vec<Fr> = Vec::new(); for j in itj: 0..self.m invariant sprs_wf(self), v@.len() >= self.n, out__@.len() == j, (forall|q: int| 0 <= q < j ==> (#[trigger] out__@[q])@ == sprs_col(self, fviews(v@), q)) { let a__: usize = \1; let b__: usize = \2; let mut acc__ = Fr::zero(); for k__ in itk: a__..b__ invariant sprs_wf(self), v@.len() >= self.n, 0 <= j < self.m, a__ == self.ind_ptr@[j as int], b__ == self.ind_ptr@[j + 1], a__ <= k__ <= b__, acc__@ == sprs_sum(self, fviews(v@), a__ as int, (k__ - a__) as nat) { let idx = self.col_ind[k__]; let x = &self.val[k__]; let t__ = \3; acc__ = acc__ + t__; } out__.push(acc__); } out__ }
+//@rw 1 /(?s)\(0\.\.([^()]*)\)\s*\.map\(\|j\| \{\s*let ij = (.*?)\.\.(.*?);\s*self\.col_ind\[ij\.clone\(\)\]\s*\.iter\(\)\s*\.zip\(&self\.val\[ij\]\)\s*\.map\(\|\(&idx, x\)\| (.*?)\)\s*\.sum::<F>\(\)\s*\}\)\s*\.collect::<Vec<_>>\(\)/ => { let mut out__: Vec<Fr> = Vec::new(); let hi__: usize = \1; for j in itj: 0..hi__ invariant sprs_wf(self), v@.len() >= self.n, hi__ <= self.m, out__@.len() == j, (forall|q: int| 0 <= q < j ==> (#[trigger] out__@[q])@ == sprs_col(self, fviews(v@), q)) { let a__: usize = \2; let b__: usize = \3; let mut acc__ = Fr::zero(); for k__ in itk: a__..b__ invariant sprs_wf(self), v@.len() >= self.n, 0 <= j < self.m, a__ == self.ind_ptr@[j as int], b__ == self.ind_ptr@[j + 1], a__ <= k__ <= b__, acc__@ == sprs_sum(self, fviews(v@), a__ as int, (k__ - a__) as nat) { let idx = self.col_ind[k__]; let x = &self.val[k__]; let t__ = \4; acc__ = acc__ + t__; } out__.push(acc__); } out__ }
 //@end
 }
 #[verifier::external_body] pub fn vec_zero_usize(len: usize) -> (r: Vec<usize>) ensures r@.len() == len, forall|i: int| 0 <= i < len ==> #[trigger] r@[i] == 0 { unimplemented!() }   // vec![0; len]
